@@ -28,6 +28,7 @@ fn is_rounded_quotient(n: i64, d: i64, q: i64) -> bool {
 
 // @bound normalize for ALL (min, default, max, value) in i32^4: never panics (any axis record a font can hold, any user value), result within [-1, 1], default maps to 0
 // @c20
+// @c01
 #[cfg_attr(kani, kani::proof)]
 pub fn c11_normalize_total_and_clamped() {
     let (min, def, max, v): (i32, i32, i32, i32) = (kani::any(), kani::any(), kani::any(), kani::any());
@@ -82,6 +83,7 @@ pub fn c11_normalize_monotone_slice() {
 
 // @bound SegmentMaps::apply with <= 3 symbolic maps (14 bytes), strictly ascending `from`, |coord| < 4.0: exact at map points, identity before the first point and after the last, linear (exact rounded quotient) inside a segment; unwind 5
 // @c20
+// @c01
 // @timeout 900
 #[cfg_attr(kani, kani::proof)]
 #[cfg_attr(kani, kani::unwind(5))]
@@ -132,6 +134,7 @@ pub fn c11_segment_maps_apply_matches_spec() {
 
 // @bound SegmentMaps::apply on 14 ARBITRARY symbolic bytes and ANY 32-bit coord: no panic / overflow; unwind 5
 // @c20
+// @c01
 #[cfg_attr(kani, kani::proof)]
 #[cfg_attr(kani, kani::unwind(5))]
 pub fn c11_segment_maps_apply_total() {
@@ -145,6 +148,7 @@ pub fn c11_segment_maps_apply_total() {
 
 // @bound VariationRegion (1 axis, 6 symbolic bytes) scalar at any F2Dot14 coordinate vs the spec tent function (exact rounded quotient)
 // @c20
+// @c01
 #[cfg_attr(kani, kani::proof)]
 #[cfg_attr(kani, kani::unwind(4))]
 pub fn c11_region_scalar_matches_spec_1axis() {
@@ -181,6 +185,7 @@ pub fn c11_region_scalar_matches_spec_1axis() {
 
 // @bound DeltaSetIndexMap (format 0/1, 16 symbolic bytes) get(any index) vs spec: entry = big-endian entrySize bytes at min(index, mapCount-1), outer = entry >> bits, inner = entry & mask
 // @c20
+// @c01
 #[cfg_attr(kani, kani::proof)]
 #[cfg_attr(kani, kani::unwind(6))]
 pub fn c11_delta_set_index_map_matches_spec() {
